@@ -272,7 +272,15 @@ func C01(c *core.Ctx) {
 
 	// ---- processIncomingInterest: requester of a cache hit is the incoming face, after its in-record
 	for _, ci := range core.FindCallsDeep(pii, idAfterCsHit) {
-		_, args := core.CallArgs(ci.Common())
+		_, args0 := core.CallArgs(ci.Common())
+		// the call may sit in a helper split off the pipeline: its arguments are then the
+		// helper's parameters, bound at the helper's only call site
+		restoreRoot := core.WithRoot(pii)
+		args := make([]ssa.Value, len(args0))
+		for i, a := range args0 {
+			args[i] = core.Resolve(a)
+		}
+		restoreRoot()
 		pkt := ssa.Value(pii.Params[1])
 		isIncomingFaceID := func(v ssa.Value) bool {
 			cl, ok := core.Strip(v).(*ssa.Call)
